@@ -4,6 +4,7 @@ import (
 	"fmt"
 	"math"
 	"math/rand"
+	"strconv"
 	"strings"
 
 	"verif/harness/core"
@@ -48,6 +49,17 @@ func (t *ty) sexp() sx.Sexp {
 			return sx.A(t.tag)
 		}
 		return sx.T(t.tag, bs(t.lo), bs(t.hi))
+	case "flt":
+		if t.lo == nil && t.hi == nil {
+			return sx.A("flt")
+		}
+		fb := func(b *int64) sx.Sexp {
+			if b == nil {
+				return sx.A("d")
+			}
+			return sx.A(strconv.FormatUint(uint64(*b), 10))
+		}
+		return sx.T("flt", fb(t.lo), fb(t.hi))
 	case "enum":
 		xs := make([]sx.Sexp, len(t.strs))
 		for i, s := range t.strs {
@@ -980,6 +992,7 @@ func genNewM(g *core.G) {
 		g.Emit("newm " + recv.String() + " " + sx.T("args", args...).String())
 	}
 	genNewMContainers(g, emit)
+	genNewMNum(g, emit)
 	recvs := []sx.Sexp{sx.T("init")}
 	for _, t := range newmRecv {
 		recvs = append(recvs, t.sexp(), sx.T("init", t.sexp()))
